@@ -20,7 +20,9 @@ Step(e) ==
     [] e.op = "read" -> IF e.k > e.n THEN Fail("ReadAtMost")
                         ELSE IF e.first # delivered + 1 \/ ~e.contiguous \/ delivered + e.k > written THEN Fail("InOrder")
                         ELSE verdict' = "ok" /\ delivered' = delivered + e.k /\ UNCHANGED <<connected, claimed, written>>
-    [] e.op = "raised" -> IF e.cls # e.expected THEN Fail(IF e.closed THEN "UseAfterClose" ELSE "ErrorsMapped") ELSE verdict' = "ok" /\ Keep
+    [] e.op = "raised" -> IF e.cls # e.expected THEN Fail(IF e.closed THEN "UseAfterClose" ELSE "ErrorsMapped")
+                          ELSE IF ~e.legit THEN Fail("RaisesOnlyForACause")      \* connected, not closed, the backend reported nothing and (for a read) data was there
+                          ELSE verdict' = "ok" /\ Keep
     [] e.op = "wrote" -> IF e.k # e.accepted THEN Fail("WriteCount") ELSE verdict' = "ok" /\ Keep
     [] e.op = "error" -> Fail(e.clause)
     [] OTHER -> verdict' = "ok" /\ Keep
